@@ -194,10 +194,13 @@ pub fn conc(rng: &mut Rng, property: &str, stratum: &str, p: &ConcParams) -> Sce
         WeightFn::PerKey(ws) => ws.clone(),
         _ => unreachable!(),
     };
-    let n_threads = rng.range(p.threads.0 as u64, p.threads.1 as u64) as usize;
+    // one run in ten is "big": one more caller and twice the operations (longer histories, more
+    // commands in flight together)
+    let big = rng.chance(1, 10);
+    let n_threads = rng.range(p.threads.0 as u64, p.threads.1 as u64) as usize + if big { 1 } else { 0 };
     let mut threads: Vec<Vec<Op>> = vec![];
     for t in 0..n_threads {
-        let n_ops = rng.range(p.ops.0 as u64, p.ops.1 as u64) as usize;
+        let n_ops = rng.range(p.ops.0 as u64, p.ops.1 as u64) as usize * if big { 2 } else { 1 };
         let my_keys: Vec<u32> = if p.owner_per_key {
             (0..keys).filter(|k| (*k as usize) % n_threads == t).collect()
         } else {
